@@ -65,7 +65,20 @@ def validate(v, runs, recipes, chunk=400):
     """runs: list of ulrun.Run (or objects with .trace); recipes: parallel list of JSON-able recipes
     for the replay file.  Reports violations on Verdict v.  Returns stats dict."""
     traces = [r.trace for r in runs]
-    res, stats = tlc.validate_traces('Trace_ULProvider', 'Trace_ULProvider.cfg', traces, chunk=chunk)
+    # one read returns at most the provider's own maximum: runs with a small local maximum are validated with ReadMax set
+    groups = {}
+    for k, r in enumerate(runs):
+        lm = getattr(r, 'local_max', 65536)
+        groups.setdefault(0 if lm >= 65536 else lm, []).append(k)
+    res = [None] * len(traces)
+    stats = {'states': 0, 'generated': 0, 'jvm_runs': 0, 'wall_s': 0.0}
+    for lm, idx in sorted(groups.items()):
+        cfg = 'Trace_ULProvider.cfg' if lm == 0 else 'Trace_ULProvider_rm%d.cfg' % lm
+        part, st = tlc.validate_traces('Trace_ULProvider', cfg, [traces[k] for k in idx], chunk=chunk)
+        for k, vd in zip(idx, part):
+            res[k] = vd
+        for key in stats:
+            stats[key] += st[key]
     cells = collections.Counter()
     nbad = 0
     for tr, vd, rec in zip(traces, res, recipes):
